@@ -494,6 +494,7 @@ func (self *Node) expandForks(must bool) bool {
 				nf := cloneFork(fork, id)
 				self.forks = append(self.forks, nf)
 				self.forkIds.List = append(self.forkIds.List, id)
+				util.VerifPoint("expand:fork", nf.fqname)
 			}
 		}
 		if err != nil {
@@ -870,6 +871,7 @@ func (self *Node) isErrorTransient() (bool, string) {
 }
 
 func (self *Node) step() bool {
+	util.VerifPoint("node:step", self.call.GetFqid())
 	if self.state == Running {
 		for _, fork := range self.forks {
 			if self.call.Call().Modifiers.Preflight && self.top.rt.Config.SkipPreflight {
@@ -940,6 +942,7 @@ func (self *Node) parseRunFilename(fqname string) (string, string, int, string, 
 }
 
 func (self *Node) refreshState(readOnly bool) {
+	util.VerifPoint("refresh:begin")
 	startTime := time.Now().Add(-self.top.rt.JobManager.queueCheckGrace())
 	files, err := util.Readdirnames(self.top.journalPath)
 	if err != nil {
@@ -981,6 +984,7 @@ func (self *Node) refreshState(readOnly bool) {
 				"WARNING: Journal update for unknown node %s (%s)",
 				fqname, filename)
 		}
+		util.VerifPoint("refresh:file", filename)
 		if !readOnly {
 			os.Remove(path.Join(self.top.journalPath, file))
 		}
@@ -1252,6 +1256,7 @@ func (self *Node) runJob(shellName, fqname, stageType string,
 		jobInfo.ProfileMode = jobInfo.ProfileConfig.Adapter
 	}
 
+	util.VerifPoint("runjob:before_queue", fqname, shellName)
 	if err := func() error {
 		util.EnterCriticalSection()
 		defer util.ExitCriticalSection()
@@ -1264,6 +1269,7 @@ func (self *Node) runJob(shellName, fqname, stageType string,
 			"Could not write jobinfo file, aborting.")
 		util.Suicide(false)
 	}
+	util.VerifPoint("runjob:after_jobinfo", fqname, shellName)
 	jobManager.execJob(shellCmd, argv, envs, metadata, res, fqname,
 		shellName, self.call.Call().Modifiers.Preflight && self.local)
 }
